@@ -46,6 +46,13 @@ type Term struct {
 	// for block terms of the form ite(c, 0, b): the block to resolve reads
 	// against (a nil slice is never read)
 	BlkOf *Term
+	// Base: name of the SMT array constant when this array term is a base
+	// (uninterpreted) array; reads of it are (select Base idx)
+	Base string
+	// Conj: the conjuncts of an (and ...) term; Segs: for the contents of a
+	// buffer built by successive appends, the boundaries of the appended pieces
+	Conj []*Term
+	Segs []*Term
 }
 
 var narr int64
@@ -208,8 +215,8 @@ func Mul(a, b *Term) *Term {
 }
 
 func Eq(a, b *Term) *Term {
-	if a.Sort == SArr && (a.Fn != nil || b.Fn != nil) {
-		panic("gvc: equality on derived arrays")
+	if a.Sort == SArr {
+		panic("gvc: equality on array terms")
 	}
 	if a.IsInt && b.IsInt {
 		return BoolLit(a.I.Cmp(b.I) == 0)
@@ -289,7 +296,15 @@ func And(ts ...*Term) *Term {
 	case 1:
 		return keep[0]
 	}
-	return app(SBool, "and", keep...)
+	r := app(SBool, "and", keep...)
+	for _, k := range keep {
+		if len(k.Conj) > 0 {
+			r.Conj = append(r.Conj, k.Conj...)
+		} else {
+			r.Conj = append(r.Conj, k)
+		}
+	}
+	return r
 }
 
 func Or(ts ...*Term) *Term {
